@@ -71,3 +71,42 @@ package transport
 //@   modifies nothing
 //@   ensures len(m) > 65535 ==> err != nil && b == nil
 //@   ensures len(m) <= 65535 ==> err == nil && fresh(b) && len(b) == len(m) + 2 && BE16(b, 0) == uint16(len(m)) && bytesEq(b, 2, m, 0, len(m))
+
+// Every message handed to a waiting exchange over its channel is a decoded reply (readLoop sends
+// only what ReadMsgFrom* returned without error).
+//@ chaninv *dnsmsg.Msg: v != nil
+
+// write: exactly one frame goes out; it is the caller's payload with bytes 0..1 replaced by the
+// assigned wire ID (after the 2-byte length prefix on TCP). The caller's payload is not modified
+// (it is shared by the retries of PipelineTransport.ExchangeContext).
+//@ func (c *pipelineConn) write(m []byte, qid uint16) (err error)
+//@   props C05 C20
+//@   requires c != nil && c.t != nil && c.c != nil && c.t.logger != nil && 2 <= len(m) && len(m) <= 65535
+//@   ghost nWr int = 0
+//@   oncall Write: nWr = nWr + 1
+//@   modifies c.closed
+//@   ensures [C05:one-frame] nWr == 1
+//@   callsite Write: [C05:assigned-id-on-wire] (c.t.opts.IsTCP ? len(arg1) == len(m) + 2 && BE16(arg1, 0) == uint16(len(m)) && BE16(arg1, 2) == qid && bytesEq(arg1, 4, m, 2, len(m) - 2)
+//@                                              : len(arg1) == len(m) && BE16(arg1, 0) == qid && bytesEq(arg1, 2, m, 2, len(m) - 2))
+//@   callsite Write: [C20:private-buffer] fresh(arg1)
+
+// exchange: the waiter is registered under a channel no other exchange has, the ID put on the wire and
+// the ID removed afterwards are the one addQueueC assigned, the waiter is removed on every path, and a
+// returned message carries the caller's original ID again.
+//@ func (c *pipelineConn) exchange(ctx context.Context, m []byte) (r *dnsmsg.Msg, err error)
+//@   props C05
+//@   requires c != nil && pcInv(c) && c.t != nil && c.c != nil && c.t.logger != nil && 2 <= len(m) && len(m) <= 65535 && ctx != nil && c.ctx != nil
+//@   ghost gq uint16 = 0
+//@   ghost addErr error = nil
+//@   ghost nDel int = 0
+//@   aftercall addQueueC: gq = ret0
+//@   aftercall addQueueC: addErr = ret1
+//@   oncall deleteQueueC: nDel = nDel + 1
+//@   modifies c.reserved, c.nextQid, obj(c.queue), c.closed, field(dnsmsg.Header.ID)
+//@   ensures pcInv(c)
+//@   ensures [C05:waiter-removed-on-every-path] (addErr == nil ==> nDel == 1 && !has(c.queue, uint32(gq))) && (addErr != nil ==> nDel == 0 && r == nil && err != nil)
+//@   ensures [C05:caller-id-restored] r != nil ==> err == nil && r.ID == BE16(m, 0)
+//@   ensures [C05:ids-only-grow] c.nextQid >= old(c.nextQid)
+//@   callsite addQueueC: [C05:private-channel] fresh(arg1)
+//@   callsite write: [C05:assigned-id-on-wire] addErr == nil && arg2 == gq && sameSlice(arg1, m, 0, len(m))
+//@   callsite deleteQueueC: [C05:removes-own-id] arg1 == gq
